@@ -53,11 +53,23 @@ Qed.
 Lemma Q2R_0 : Q2R (0#1) = 0.
 Proof. unfold Q2R; simpl; lra. Qed.
 
+Lemma Q2R_red q : Q2R (Qred q) = Q2R q.
+Proof. apply Qeq_eqR, Qred_correct. Qed.
+
+Lemma Q2R_qadd a b : Q2R (qadd a b) = Q2R a + Q2R b.
+Proof. unfold qadd. now rewrite Q2R_red, Q2R_plus. Qed.
+
+Lemma qadd_eq a b : (qadd a b == a + b)%Q.
+Proof. apply Qred_correct. Qed.
+
+Lemma qmul_eq a b : (qmul a b == a * b)%Q.
+Proof. apply Qred_correct. Qed.
+
 Lemma kappaR_Q2R (l : list Q) : kappaR (map Q2R l) = Q2R (kappaQ l).
 Proof.
   induction l as [|x l IH]; simpl.
   - now rewrite Q2R_0.
-  - rewrite Q2R_plus, IH, Q2R_abs. reflexivity.
+  - rewrite Q2R_qadd, IH, Q2R_abs. reflexivity.
 Qed.
 
 Lemma kappaR_nonneg (l : list R) : 0 <= kappaR l.
@@ -66,9 +78,13 @@ Proof. induction l as [|x l IH]; simpl; [lra|]. pose proof (Rabs_pos x). lra. Qe
 Lemma kappaQ_nonneg (l : list Q) : (0 <= kappaQ l)%Q.
 Proof.
   induction l as [|x l IH]; simpl; [apply Qle_refl|].
-  pose proof (Qabs_nonneg x) as H.
+  rewrite qadd_eq. pose proof (Qabs_nonneg x) as H.
   replace (0#1)%Q with ((0#1) + (0#1))%Q by reflexivity. now apply Qplus_le_compat.
 Qed.
+
+(* kappa is the plain sum of the absolute values *)
+Lemma kappaQ_sum (l : list Q) : (kappaQ l == sumQ (map Qabs l))%Q.
+Proof. induction l as [|x l IH]; simpl; [reflexivity|]. now rewrite qadd_eq, IH. Qed.
 
 (* ------------------------------------------------------------------------------------ *)
 (* Q(sqrt 2) -> R is a ring homomorphism; evaluation commutes with it                     *)
@@ -545,19 +561,27 @@ Qed.
 (* basis invariants                                                                       *)
 (* ------------------------------------------------------------------------------------ *)
 
-Lemma sumQ_div (l : list Q) (k : Q) : (sumQ (map (fun c => Qabs c / k) l) == kappaQ l / k)%Q.
+Lemma sumQ_div (l : list Q) (k : Q) : (sumQ (map (fun c => Qred (Qabs c / k)) l) == kappaQ l / k)%Q.
 Proof.
-  induction l as [|x l IH]; simpl.
+  induction l as [|x l IH]; cbn [map sumQ kappaQ fold_right].
   - unfold Qdiv. ring.
-  - rewrite IH. unfold Qdiv. ring.
+  - fold (sumQ (map (fun c => Qred (Qabs c / k)) l)). fold (kappaQ l).
+    rewrite Qred_correct, IH, qadd_eq. unfold Qdiv. ring.
 Qed.
 
 Lemma probsQ_sum (l : list Q) : ~ (kappaQ l == 0)%Q -> (sumQ (probsQ l) == 1)%Q.
 Proof. intros H. unfold probsQ. rewrite sumQ_div. now field. Qed.
 
+Lemma probsQ_spec (l : list Q) : Forall2 Qeq (probsQ l) (map (fun c => (Qabs c / kappaQ l)%Q) l).
+Proof.
+  unfold probsQ. generalize (kappaQ l) as k. intros k.
+  induction l as [|x l IH]; cbn [map]; [constructor|]. constructor; [apply Qred_correct|exact IH].
+Qed.
+
 Lemma probsQ_nonneg (l : list Q) : Forall (fun p => (0 <= p)%Q) (probsQ l).
 Proof.
   unfold probsQ. apply Forall_forall. intros p Hp. apply in_map_iff in Hp as (c & <- & _).
+  rewrite Qred_correct.
   pose proof (kappaQ_nonneg l) as Hk. pose proof (Qabs_nonneg c) as Hc.
   destruct (Qeq_dec (kappaQ l) 0) as [E|N].
   - unfold Qdiv. rewrite E. unfold Qinv; simpl. rewrite Qmult_0_r. apply Qle_refl.
@@ -621,8 +645,8 @@ Lemma run_last p ops c :
   length c = nmaps_of p ->
   let p' := run_assignments p (ops ++ [c]) in
   get_coeffs p' = Some c /\ get_kappa p' = Some (kappaQ c) /\
-  get_probs p' = Some (map (fun x => (Qabs x / kappaQ c)%Q) c) /\
-  get_overhead p' = Some (kappaQ c * kappaQ c)%Q.
+  get_probs p' = Some (probsQ c) /\
+  get_overhead p' = Some (overheadQ c).
 Proof.
   intros H. cbv zeta. rewrite run_app. unfold assign.
   rewrite set_coeffs_ok by (now rewrite run_nmaps). simpl. auto.
